@@ -304,11 +304,12 @@ def summarize(tier: str, seed: int, merged: dict) -> dict:
         "rule": (
             "5 base engines + every single-field deviation of C14's alphabets + numeric deviations over "
             f"{[repr(v) for v in SPECIAL]} in term parameters, ranges, defaults, thresholds, heights, Discrete pairs + quotes/"
-            "backslashes in descriptions + one disabled rule at every position; x aliases ['fl', '', '*', 'zz'] (all four for "
+            "backslashes in descriptions + one disabled rule at every position (disabled AFTER loading; also under Proportional / First / Highest); x aliases ['fl', '', '*', 'zz'] (all four for "
             "the base/number/quotes/disabled-rule groups, one rotating alias for the rest in the quick tier) x {repr, "
             "encapsulated} (+ black-formatted for the base engines); every component of the processed base engines and a "
             "standalone component list (all norms, hedges, defuzzifiers, activations, every shape term with special doubles, "
-            "Activated, Aggregated, variables) rebuilt on its own. states = engines, transitions = code generations/executions, "
+            "Activated, Aggregated, variables, empty variables / rule blocks, numpy float32 / float16 scalar parameters) rebuilt on its own through "
+            "to_string and through the typed PythonExporter methods. states = engines, transitions = code generations/executions, "
             "traces = rebuilt objects compared"
         ),
         "exhaustive": True,
